@@ -29,6 +29,8 @@ def run(chk):
         targets += list(getattr(c03doc, "BUILD_TARGETS", ["theories/Corr/C03doc.vo", "theories/Props/C03doc.vo"]))
     chk.build(targets)
     chk.props("theories/Props/C03.v", THEOREMS)
+    if chk.tier == "thorough":
+        chk.coqchk(["Ford.Props.C03", "Ford.Props.C03doc"])
     if c03doc is not None:
         chk.props(getattr(c03doc, "PROPS_FILE", "theories/Props/C03doc.v"), c03doc.THEOREMS)
     rng = chk.rng
